@@ -31,21 +31,50 @@ BM = 'ombott.request_pkg.body_mixin'
 
 
 def section_pairing(ii):
-    """how FieldStorage.iter_items pairs the sections of the markup: (headers name, data name, strictly alternating?, node) or None"""
-    nx = [c for c in walk_shallow(ii.node) if isinstance(c, ast.Call) and dotted(c.func) == 'next' and len(c.args) == 2]
-    pairs = [T.assigned_name_of_call(c) for c in nx]
-    if len(pairs) >= 3 and all(pairs[1:]):
-        ok = len(pairs) == 5 and pairs[1] == pairs[3] and pairs[2] == pairs[4] and pairs[1] != pairs[2]
-        return pairs[1], pairs[2], ok, nx[1]
-    for lp in walk_shallow(ii.node):
-        if isinstance(lp, ast.For) and isinstance(lp.iter, ast.Call) and (dotted(lp.iter.func) or '').split('.')[-1] in ('zip_longest', 'zip') \
-                and isinstance(lp.target, ast.Tuple) and len(lp.target.elts) == 2 and all(isinstance(e, ast.Name) for e in lp.target.elts):
-            a = lp.iter.args
-            # the same iterator object twice: consecutive items are paired.  zip() would silently drop a trailing header section
-            ok = len(a) == 2 and isinstance(a[0], ast.Name) and src(a[0]) == src(a[1]) and dotted(lp.iter.func).split('.')[-1] == 'zip_longest' \
-                and not lp.iter.keywords
-            return lp.target.elts[0].id, lp.target.elts[1].id, ok, lp
-    return None
+    """how FieldStorage.iter_items pairs the sections of the markup: (headers name, data name, strictly alternating?, node) or None.
+    The two section variables are found by role (`kind, rng = <var>; assert kind == 'headers' / 'data'`); every binding of either must be
+    a fetch from one and the same iterator - `next(it, None)`, the target of `for … in it`, or the targets of `zip_longest(it, it)` - and
+    every headers fetch must be followed directly by a data fetch (so sections are consumed in pairs whatever the loop looks like)."""
+    g, rd = ii.cfg, ii.rd
+    role = {}
+    for st in walk_shallow(ii.node):
+        if isinstance(st, ast.Assert):
+            cp = compare_parts(st.test)
+            if cp and cp[1] is ast.Eq and isinstance(cp[0], ast.Name) and const(cp[2]) in ('headers', 'data'):
+                n = g.node_of_stmt(st)
+                for d in (rd.at(n[0], cp[0].id) if n else []):
+                    if d.kind in ('unpack', 'assign') and isinstance(d.stmt, ast.Assign) and isinstance(d.stmt.value, ast.Name):
+                        role[const(cp[2])] = d.stmt.value.id
+    if set(role) != {'headers', 'data'}:
+        return None
+    hname, dname = role['headers'], role['data']
+    fetches = {hname: [], dname: []}      # name -> [(cfg node, iterator source text, kind)]
+    for n in g.nodes:
+        for d in rd.gen.get(n, []):
+            if d.name not in fetches:
+                continue
+            v = d.value
+            if d.kind == 'assign' and isinstance(v, ast.Call) and dotted(v.func) == 'next' and len(v.args) == 2 and is_const(v.args[1], None):
+                fetches[d.name].append((n, src(v.args[0]), 'next'))
+            elif d.kind == 'for' and isinstance(v, ast.Call) and (dotted(v.func) or '').split('.')[-1] == 'zip_longest' and len(v.args) == 2 \
+                    and src(v.args[0]) == src(v.args[1]) and not v.keywords:
+                fetches[d.name].append((n, src(v.args[0]), 'zip'))
+            elif d.kind == 'for' and isinstance(v, ast.Name) and isinstance(n.ast.target, ast.Name):
+                fetches[d.name].append((n, src(v), 'for'))
+            else:
+                return hname, dname, False, d.stmt        # bound by something that is not a fetch from the section iterator
+    hs, ds = fetches[hname], fetches[dname]
+    if not hs or not ds:
+        return None
+    its = {x[1] for x in hs + ds}
+    ok = len(its) == 1 and len(hs) == len(ds)
+    for (hn, _, kind) in hs:
+        if kind == 'zip':
+            ok = ok and any(dn is hn for (dn, _, _) in ds)
+            continue
+        nxt = [m for (m, lab) in hn.succ if lab in ('next', 'iter')]
+        ok = ok and len(nxt) == 1 and any(dn is nxt[0] for (dn, _, k2) in ds if k2 == 'next')
+    return hname, dname, ok, hs[0][0].ast
 
 
 def check(P, R):
@@ -58,7 +87,7 @@ def check(P, R):
     # ---- a
     rd_ = P.func(f'{MP}:BytesIOProxy.read')
     g, rd = rd_.cfg, rd_.rd
-    src_reads = [c for c in walk_shallow(rd_.node) if isinstance(c, ast.Call) and dotted(c.func) == 'self._src.read']
+    src_reads = T.calls_to(rd_, 'self._src.read')
     R.require(src_reads, 'BytesIOProxy.read: no read of the source')
     rem_defs = [d for n in g.nodes for d in rd.gen.get(n, []) if d.kind == 'assign' and src(d.value).replace(' ', '') == 'self._end-self._pos']
     R.require(rem_defs, 'BytesIOProxy.read: remainder `self._end - self._pos` not computed')
